@@ -118,7 +118,25 @@ fn lock_rel_path(name: &str) -> String {
 // ---------------------------------------------------------------------------------------------
 // child: run the transaction and print one line
 
+/// The child must never outlive the process that watches it (which may itself be killed by the runner's deadline), and
+/// must never burn CPU without bound: die with the parent, hard CPU limit, hard wall-clock limit.
+fn confine_child() {
+    unsafe {
+        libc::prctl(libc::PR_SET_PDEATHSIG, libc::SIGKILL as libc::c_ulong);
+        if libc::getppid() == 1 {
+            libc::_exit(3);
+        }
+        let lim = libc::rlimit {
+            rlim_cur: 30,
+            rlim_max: 30,
+        };
+        libc::setrlimit(libc::RLIMIT_CPU, &lim);
+        libc::alarm(600);
+    }
+}
+
 fn child_main(git_dir: &str, tape_hex: &str) -> ! {
+    confine_child();
     let tape = unhex(tape_hex).unwrap_or_default();
     let mut t = Tape::new(&tape);
     let sc = decode(&mut t);
@@ -266,6 +284,36 @@ fn contention(t: &mut Tape, c: &mut Case) {
     let tape = t.consumed().to_vec();
     c.key(&sc);
     c.sample_with(|| format!("{sc:?}"));
+    // A suspected hang is only reported when it shows again in a second, fresh execution of the same scenario: a
+    // transaction that really never returns does so deterministically, while CPU accounting on an overcommitted machine
+    // occasionally charges seconds of CPU time to a process that did a few milliseconds of work.
+    if attempt(&sc, &tape, c, false) {
+        c.label("hang-suspect-rerun");
+        attempt(&sc, &tape, c, true);
+    }
+}
+
+/// returns true if the run looked like a hang and `confirm` is false (nothing reported yet)
+fn attempt(sc: &Scenario, tape: &[u8], c: &mut Case, confirm: bool) -> bool {
+    macro_rules! infra {
+        ($c:expr, $e:expr, $what:expr) => {
+            match $e {
+                Ok(v) => v,
+                Err(err) => {
+                    $c.infra(format!("{}: {}", $what, err));
+                    return false;
+                }
+            }
+        };
+    }
+    macro_rules! ensure_sig {
+        ($c:expr, $sig:expr, $cond:expr, $($arg:tt)*) => {
+            if !($cond) {
+                $c.fail_sig($sig, format!($($arg)*));
+                return false;
+            }
+        };
+    }
     let scratch = infra!(c, Scratch::new("c17"), "scratch");
     let git_dir = scratch.join("repo.git");
     infra!(c, skeleton_git_dir(&git_dir), "git dir");
@@ -304,7 +352,7 @@ fn contention(t: &mut Tape, c: &mut Case) {
     );
     c.nontrivial(held_child);
 
-    let res = infra!(c, run_child(&git_dir, &tape), "child process");
+    let res = infra!(c, run_child(&git_dir, tape), "child process");
     let after = infra!(c, snapshot(&git_dir), "snapshot");
     let unchanged = before.files == after.files;
     let foreign_intact = held.iter().all(|n| {
@@ -318,6 +366,7 @@ fn contention(t: &mut Tape, c: &mut Case) {
         .collect();
 
     match res {
+        ChildResult::Spinning { .. } | ChildResult::Sleeping { .. } if !confirm => return true,
         ChildResult::Spinning { cpu_ms, wall_ms } => {
             let sig = if held_child {
                 "hang-lock-failure-on-dereferenced-edit"
@@ -330,7 +379,7 @@ fn contention(t: &mut Tape, c: &mut Case) {
                     "prepare/commit did not return: {cpu_ms} ms of CPU time consumed in {wall_ms} ms (a transaction needs a few ms); held locks {held:?}; scenario {sc:?}"
                 ),
             );
-            return;
+            return false;
         }
         ChildResult::Sleeping { wall_ms, asleep_pct } => {
             c.fail_sig(
@@ -339,17 +388,17 @@ fn contention(t: &mut Tape, c: &mut Case) {
                     "prepare/commit did not return within {wall_ms} ms and the process was asleep in {asleep_pct} % of the samples (longest configured lock wait: 50 ms); held locks {held:?}; scenario {sc:?}"
                 ),
             );
-            return;
+            return false;
         }
         ChildResult::Starved { wall_ms } => {
             // no CPU consumed: the child was not scheduled, or sleeps for ever. The latter would be a violation too, but
             // cannot be told apart from starvation here.
             c.infra(format!("child did not finish within {wall_ms} ms without consuming CPU"));
-            return;
+            return false;
         }
         ChildResult::Crashed(msg) => {
             c.fail_sig("child-crashed", format!("transaction process died: {msg}; scenario {sc:?}"));
-            return;
+            return false;
         }
         ChildResult::Ok => {
             c.label("committed");
@@ -361,14 +410,14 @@ fn contention(t: &mut Tape, c: &mut Case) {
                         "accepted-but-model-rejects",
                         format!("the transaction succeeded but the model rejects it ({r:?}); {sc:?}"),
                     );
-                    return;
+                    return false;
                 }
                 Ok(m2) => {
                     let found = match observe_find(&open_store(&git_dir)) {
                         Ok(f) => f,
                         Err(e) => {
                             c.fail_sig("gix-read-error", format!("after success: {e}; {sc:?}"));
-                            return;
+                            return false;
                         }
                     };
                     let want = findable(&git_dir, &expected_map(m2, &pool));
@@ -459,6 +508,7 @@ fn contention(t: &mut Tape, c: &mut Case) {
             }
         }
     }
+    false
 }
 
 pub fn main() {
@@ -472,7 +522,7 @@ pub fn main() {
     ck.assume("model of C16 decides the outcome when no lock is held; with held locks: an error leaves every file (refs, packed-refs, foreign locks) unchanged, LockAcquire names a ref of the transaction, PackedTransactionAcquire only when packed-refs.lock is held, non-lock errors only when the model rejects the transaction too");
     ck.sub(
         "contention",
-        SubCfg::new(1200, 20_000).max_len(256).isolated(60_000, true).max_shrink(80),
+        SubCfg::new(1200, 20_000).max_len(256).isolated(60_000, true).max_shrink(25),
         contention,
     );
     ck.finish();
